@@ -250,7 +250,7 @@ def _one_record(draw, tag, max_genes=4, isoforms=True):
         ntx = draw(st.sampled_from([1, 1, 1, 2, 3])) if isoforms else 1
         txs = []
         for j in range(ntx):
-            t = draw(S.transcript_spec(max_exons=3, max_len=9, strand=strand, coding=coding if ntx == 1 else draw(st.sampled_from([coding, coding, not coding])), zero_gap_cds=False, frameshift_prob=0, start_min=cursor, start_max=2))
+            t = draw(S.transcript_spec(max_exons=3, max_len=9, strand=strand, coding=coding if ntx == 1 else draw(st.sampled_from([coding, coding, not coding])), zero_gap_cds=False, frameshift_prob=0, cds_overlap_prob=6, start_min=cursor, start_max=2))
             coding_t = "cds" in t
             t["transcript_id"] = "%sg%dt%d" % (tag, i, j)
             t["transcript_symbol"] = draw(st.one_of(st.none(), st.just("%ssym%d_%d" % (tag, i, j))))
